@@ -32,7 +32,7 @@ PROPS = {
                    "all log levels incl. DEBUG/OSCORE (coap_show_pdu walks every PDU again).",
         level_note="Trusted base: sim/sim.cc, ref/refcodec.h (classification of malformed datagrams), sanitizer runtime. OSCORE-protected endpoints are attacked in C15's harness, DTLS/TLS records in C19's. 'Never loops forever' is a wall-clock watchdog of 20 s per case (normal cases take ~1 ms).",
         quick=rc(6, 4000) + fuzz(6, 30000, max_len=700, timeout=20),
-        thorough=rc(4, 100000) + fuzz(12, 1500000, max_len=700, timeout=20),
+        thorough=rc(4, 60000) + fuzz(12, 800000, max_len=700, timeout=20, max_time=2400),
         libs=["-lcrypto"],
         case_timeout=20,
         timeout_is_violation=True,
@@ -139,7 +139,7 @@ PROPS = {
                    "a caller's stack buffer cannot survive by accident.",
         level_note="Trusted base: sim/sim.cc stream model (bytes become readable chunk by chunk, recv returns what is available), ref/refcodec.h, RFC 6455 framing in props/C05.cc. TLS/WSS framing is the same code above the TLS layer (C19 covers TLS).",
         quick=rc(10, 700) + enum(6, 6000),
-        thorough=rc(12, 40000) + enum(4, 128000),
+        thorough=rc(12, 20000) + enum(4, 128000),
         libs=["-lcrypto"],
         **SIM,
     ),
